@@ -98,6 +98,11 @@ def run_shape(shape):
         RecDok.made = []
         with bound(T, dok_array=RecDok, diags=sp.ddiags, int=sym_int, print=noprint):
             traj = sarr([SR(x, nan=b) for x, b in zip(xs, nans)]) if L else np.zeros(0, dtype=object).view(type(sarr([0])))
+            # another MSM of the same process (other trajectory, same number of cells, same lag and mode) is evaluated first
+            decoy = np.array([float((3 * k + 1) % n) for k in range(L + 2)])
+            T.MSM(decoy, n).get_one_tau_transition_matrix(tau, noncorr)
+            T.MSM(decoy, n).get_one_tau_transition_matrix(tau, not noncorr)
+            RecDok.made = []
             M = T.MSM(traj, n).get_one_tau_transition_matrix(tau, noncorr)
             Mr = None
             if not noncorr:
@@ -227,6 +232,9 @@ def numeric_violations(shape, traj):
     import molgri.molecules.transitions as T
     L, n, tau, noncorr = shape["L"], shape["n"], shape["tau"], shape["noncorr"]
     with contextlib.redirect_stdout(io.StringIO()), real_code():
+        decoy = np.array([float((3 * k + 1) % n) for k in range(L + 2)])      # the same history as the symbolic run: another MSM first
+        T.MSM(decoy, n).get_one_tau_transition_matrix(tau, noncorr)
+        T.MSM(decoy, n).get_one_tau_transition_matrix(tau, not noncorr)
         M = T.MSM(np.array(traj, dtype=float), n).get_one_tau_transition_matrix(tau, noncorr)
         Mr = T.MSM(np.array(traj[::-1], dtype=float), n).get_one_tau_transition_matrix(tau, noncorr)
         obj = T.MSM(np.array(traj, dtype=float), n)
